@@ -8,8 +8,9 @@ Property theorems only (helpers: Lemmas/LedgerInbox.lean, LedgerFifo.lean; vocab
 The contract methods are parameters of the ledger model: `crecv s c h status descs` takes the observed outcome of the
 method (status 1 = applied, 2 = failed and refunded; the descendant sends) and checks what the VM skeleton enforces
 (`generateEmbeddedReceive` / `rollbackEmbedded`). For the token contract the method itself is modelled (`tokenMethod`).
-Termination and panic-freedom of the Go methods and of the ABI decoder (DESIGN C09-T3..T5) are not statements about
-this model; they are covered by correspondence.
+Panic-freedom of the ABI decoder (DESIGN C09-T3) and unpack∘pack are proved over the decoder model in Props/C09Abi.lean.
+Termination and panic-freedom of the Go method bodies (T4, T5) are not statements about this model; they are covered by
+the autoreceive stream's monitors (harness/cmd/zvh/s_autoreceive.go).
 
   `pendingFor s c`    confirmed sends addressed to c that c has not received, in confirmation order
   `descSum ds t`      Σ of the descendant amounts of token t        `refundDescs snd h'`  the refund descendant list
